@@ -56,6 +56,146 @@ impl IntoY for (Item, Pri) {
     }
 }
 
+/// key and rank of an element through a shared reference (for the closures of the provided methods)
+pub trait View {
+    fn vkey(&self) -> &str;
+    fn vr(&self) -> i64;
+}
+impl View for (&Item, &Pri) {
+    fn vkey(&self) -> &str {
+        &self.0.key
+    }
+    fn vr(&self) -> i64 {
+        self.1.r()
+    }
+}
+impl View for (&mut Item, &mut Pri) {
+    fn vkey(&self) -> &str {
+        &self.0.key
+    }
+    fn vr(&self) -> i64 {
+        self.1.r()
+    }
+}
+impl View for (&mut Item, &Pri) {
+    fn vkey(&self) -> &str {
+        &self.0.key
+    }
+    fn vr(&self) -> i64 {
+        self.1.r()
+    }
+}
+impl View for (Item, Pri) {
+    fn vkey(&self) -> &str {
+        &self.0.key
+    }
+    fn vr(&self) -> i64 {
+        self.1.r()
+    }
+}
+
+/// The stepping replica: forwards ONLY next / next_back / size_hint, so that every provided method of
+/// Iterator / DoubleEndedIterator / ExactSizeIterator called on it runs std's default implementation.
+pub struct Plain<I>(pub I);
+impl<I: Iterator> Iterator for Plain<I> {
+    type Item = I::Item;
+    fn next(&mut self) -> Option<I::Item> {
+        self.0.next()
+    }
+    fn size_hint(&self) -> (usize, Option<usize>) {
+        self.0.size_hint()
+    }
+}
+impl<I: DoubleEndedIterator> DoubleEndedIterator for Plain<I> {
+    fn next_back(&mut self) -> Option<I::Item> {
+        self.0.next_back()
+    }
+}
+impl<I: ExactSizeIterator> ExactSizeIterator for Plain<I> {}
+
+/// provided (overridable) methods of the iterator traits, by index (call code 20)
+pub const METHODS: &[&str] = &["min", "max", "min_by_key", "max_by_key", "min_by", "max_by", "reduce", "position", "find", "any",
+    "all", "find_map", "partition", "collect", "rfind", "rposition", "rev_collect"];
+fn jel(y: Y) -> serde_json::Value {
+    serde_json::json!({"k": y.k, "pay": y.pay, "r": y.r, "t": y.t})
+}
+fn jopt<T: IntoY>(o: Option<T>) -> serde_json::Value {
+    match o {
+        None => serde_json::json!([]),
+        Some(x) => serde_json::json!([jel(x.y())]),
+    }
+}
+fn jlist<T: IntoY>(v: Vec<T>) -> serde_json::Value {
+    serde_json::Value::Array(v.into_iter().map(|x| jel(x.y())).collect())
+}
+pub fn provided_fwd<I>(slot: &mut Option<I>, m: usize) -> serde_json::Value
+where
+    I: Iterator,
+    I::Item: IntoY + View + Ord,
+{
+    use serde_json::json;
+    if m > 13 {
+        return json!("na");
+    }
+    let mut i = match slot.take() {
+        Some(i) => i,
+        None => return json!("gone"),
+    };
+    match m {
+        0 => jopt(i.min()),
+        1 => jopt(i.max()),
+        2 => jopt(i.min_by_key(|x| x.vr())),
+        3 => jopt(i.max_by_key(|x| x.vr())),
+        4 => jopt(i.min_by(|a, b| b.vkey().cmp(a.vkey()))),
+        5 => jopt(i.max_by(|a, b| b.vkey().cmp(a.vkey()))),
+        6 => jopt(i.reduce(|a, b| if b.vr() >= a.vr() { b } else { a })),
+        7 => json!(i.position(|x| x.vr() >= 1).map(|p| p as i64).unwrap_or(-1)),
+        8 => jopt(i.find(|x| x.vr() >= 1)),
+        9 => json!(i.any(|x| x.vr() >= 1)),
+        10 => json!(i.all(|x| x.vr() >= 1)),
+        11 => json!(i.find_map(|x| if x.vr() >= 1 { Some(x.vkey().to_string()) } else { None }).into_iter().collect::<Vec<String>>()),
+        12 => {
+            let (a, b): (Vec<I::Item>, Vec<I::Item>) = i.partition(|x| x.vr() >= 1);
+            json!([jlist(a), jlist(b)])
+        }
+        13 => jlist(i.collect::<Vec<I::Item>>()),
+        _ => json!("na"),
+    }
+}
+pub fn provided_de<I>(slot: &mut Option<I>, m: usize) -> serde_json::Value
+where
+    I: DoubleEndedIterator,
+    I::Item: IntoY + View + Ord,
+{
+    use serde_json::json;
+    if m != 14 && m != 16 {
+        return json!("na");
+    }
+    let mut i = match slot.take() {
+        Some(i) => i,
+        None => return json!("gone"),
+    };
+    match m {
+        14 => jopt(i.rfind(|x| x.vr() >= 1)),
+        16 => jlist(i.rev().collect::<Vec<I::Item>>()),
+        _ => json!("na"),
+    }
+}
+pub fn provided_dx<I>(slot: &mut Option<I>, m: usize) -> serde_json::Value
+where
+    I: DoubleEndedIterator + ExactSizeIterator,
+    I::Item: IntoY + View + Ord,
+{
+    use serde_json::json;
+    match m {
+        15 => match slot.take() {
+            Some(mut i) => json!(i.rposition(|x| x.vr() >= 1).map(|p| p as i64).unwrap_or(-1)),
+            None => json!("gone"),
+        },
+        _ => provided_de(slot, m),
+    }
+}
+
 /// An iterator as the protocol engine sees it
 pub trait Proto {
     fn next(&mut self) -> Option<Y>;
@@ -75,13 +215,15 @@ pub trait Proto {
     fn for_each_all(&mut self) -> Vec<Y>;
     /// None = rfold not offered
     fn rfold_all(&mut self) -> Option<Vec<Y>>;
+    /// provided method METHODS[m] (consuming); "na" = not offered by this iterator
+    fn provided(&mut self, m: usize) -> serde_json::Value;
 }
 /// (the iterator sits in an Option so that the consuming methods `last` / `count` can be called on the
 /// iterator itself - through `by_ref()` an override of them would never run)
 pub struct Fwd<I>(pub Option<I>);
 impl<I: Iterator> Proto for Fwd<I>
 where
-    I::Item: IntoY,
+    I::Item: IntoY + View + Ord,
 {
     fn next(&mut self) -> Option<Y> {
         self.0.as_mut().and_then(|i| i.next()).map(|x| x.y())
@@ -119,6 +261,9 @@ where
     }
     fn rfold_all(&mut self) -> Option<Vec<Y>> {
         None
+    }
+    fn provided(&mut self, m: usize) -> serde_json::Value {
+        provided_fwd(&mut self.0, m)
     }
 }
 /// (the iterator sits in an Option so that the consuming methods `last` / `count` can be called on the
@@ -126,7 +271,7 @@ where
 pub struct Fx<I>(pub Option<I>);
 impl<I: Iterator + ExactSizeIterator> Proto for Fx<I>
 where
-    I::Item: IntoY,
+    I::Item: IntoY + View + Ord,
 {
     fn next(&mut self) -> Option<Y> {
         self.0.as_mut().and_then(|i| i.next()).map(|x| x.y())
@@ -165,13 +310,16 @@ where
     fn rfold_all(&mut self) -> Option<Vec<Y>> {
         None
     }
+    fn provided(&mut self, m: usize) -> serde_json::Value {
+        provided_fwd(&mut self.0, m)
+    }
 }
 /// (the iterator sits in an Option so that the consuming methods `last` / `count` can be called on the
 /// iterator itself - through `by_ref()` an override of them would never run)
 pub struct Dx<I>(pub Option<I>);
 impl<I: DoubleEndedIterator + ExactSizeIterator> Proto for Dx<I>
 where
-    I::Item: IntoY,
+    I::Item: IntoY + View + Ord,
 {
     fn next(&mut self) -> Option<Y> {
         self.0.as_mut().and_then(|i| i.next()).map(|x| x.y())
@@ -210,13 +358,16 @@ where
     fn rfold_all(&mut self) -> Option<Vec<Y>> {
         Some(self.0.take().map(|i| i.rfold(Vec::new(), |mut v, x| { v.push(x.y()); v })).unwrap_or_default())
     }
+    fn provided(&mut self, m: usize) -> serde_json::Value {
+        if (14..=16).contains(&m) { provided_dx(&mut self.0, m) } else { provided_fwd(&mut self.0, m) }
+    }
 }
 /// (the iterator sits in an Option so that the consuming methods `last` / `count` can be called on the
 /// iterator itself - through `by_ref()` an override of them would never run)
 pub struct Dd<I>(pub Option<I>);
 impl<I: DoubleEndedIterator> Proto for Dd<I>
 where
-    I::Item: IntoY,
+    I::Item: IntoY + View + Ord,
 {
     fn next(&mut self) -> Option<Y> {
         self.0.as_mut().and_then(|i| i.next()).map(|x| x.y())
@@ -255,13 +406,16 @@ where
     fn rfold_all(&mut self) -> Option<Vec<Y>> {
         Some(self.0.take().map(|i| i.rfold(Vec::new(), |mut v, x| { v.push(x.y()); v })).unwrap_or_default())
     }
+    fn provided(&mut self, m: usize) -> serde_json::Value {
+        if (14..=16).contains(&m) { provided_de(&mut self.0, m) } else { provided_fwd(&mut self.0, m) }
+    }
 }
 
 /// std adaptors over a double-ended exact-size iterator (where std requires those traits)
 pub fn adapt_dx<'a, I>(it: I, adaptor: &str, k: usize) -> Box<dyn Proto + 'a>
 where
     I: DoubleEndedIterator + ExactSizeIterator + 'a,
-    I::Item: IntoY + 'a,
+    I::Item: IntoY + View + Ord + 'a,
 {
     match adaptor {
         "" | "none" => Box::new(Dx(Some(it))),
@@ -284,7 +438,7 @@ where
 pub fn adapt_fwd<'a, I>(it: I, adaptor: &str, k: usize) -> Box<dyn Proto + 'a>
 where
     I: Iterator + 'a,
-    I::Item: IntoY + 'a,
+    I::Item: IntoY + View + Ord + 'a,
 {
     match adaptor {
         "" | "none" => Box::new(Fwd(Some(it))),
@@ -618,12 +772,22 @@ impl<H: BuildHasher + Default + Clone + std::fmt::Debug> QApi for PriorityQueue<
         Ok(out)
     }
     fn with_iter(&mut self, it: &str, adaptor: &str, k: usize, forget: bool, f: &mut dyn FnMut(&mut dyn Proto)) {
-        let mut b: Box<dyn Proto + '_> = match it {
-            "iter" => adapt_dx(self.iter(), adaptor, k),
-            "iter_ref" => adapt_dx((&*self).into_iter(), adaptor, k),
-            "drain" => adapt_dx(self.drain(), adaptor, k),
-            "iter_mut" => adapt_fwd(self.iter_mut(), adaptor, k),
-            "iter_mut_ref" => adapt_fwd((&mut *self).into_iter(), adaptor, k),
+        // "plain:<adaptor>": the stepping replica of the same iterator (see Plain)
+        let (plain, adaptor) = match adaptor.strip_prefix("plain:") {
+            Some(a) => (true, a),
+            None => (false, adaptor),
+        };
+        let mut b: Box<dyn Proto + '_> = match (it, plain) {
+            ("iter", false) => adapt_dx(self.iter(), adaptor, k),
+            ("iter", true) => adapt_dx(Plain(self.iter()), adaptor, k),
+            ("iter_ref", false) => adapt_dx((&*self).into_iter(), adaptor, k),
+            ("iter_ref", true) => adapt_dx(Plain((&*self).into_iter()), adaptor, k),
+            ("drain", false) => adapt_dx(self.drain(), adaptor, k),
+            ("drain", true) => adapt_dx(Plain(self.drain()), adaptor, k),
+            ("iter_mut", false) => adapt_fwd(self.iter_mut(), adaptor, k),
+            ("iter_mut", true) => adapt_fwd(Plain(self.iter_mut()), adaptor, k),
+            ("iter_mut_ref", false) => adapt_fwd((&mut *self).into_iter(), adaptor, k),
+            ("iter_mut_ref", true) => adapt_fwd(Plain((&mut *self).into_iter()), adaptor, k),
             _ => panic!("harness: unknown iterator {}", it),
         };
         f(&mut *b);
@@ -632,9 +796,15 @@ impl<H: BuildHasher + Default + Clone + std::fmt::Debug> QApi for PriorityQueue<
         }
     }
     fn with_into_iter(self, it: &str, adaptor: &str, k: usize, f: &mut dyn FnMut(&mut dyn Proto)) {
-        match it {
-            "into_iter" => f(&mut *adapt_dx(self.into_iter(), adaptor, k)),
-            "sorted" => f(&mut *adapt_fwd(self.into_sorted_iter(), adaptor, k)),
+        let (plain, adaptor) = match adaptor.strip_prefix("plain:") {
+            Some(a) => (true, a),
+            None => (false, adaptor),
+        };
+        match (it, plain) {
+            ("into_iter", false) => f(&mut *adapt_dx(self.into_iter(), adaptor, k)),
+            ("into_iter", true) => f(&mut *adapt_dx(Plain(self.into_iter()), adaptor, k)),
+            ("sorted", false) => f(&mut *adapt_fwd(self.into_sorted_iter(), adaptor, k)),
+            ("sorted", true) => f(&mut *adapt_fwd(Plain(self.into_sorted_iter()), adaptor, k)),
             _ => panic!("harness: unknown iterator {}", it),
         }
     }
@@ -755,12 +925,22 @@ impl<H: BuildHasher + Default + Clone> QApi for DoublePriorityQueue<Item, Pri, H
         Ok(out)
     }
     fn with_iter(&mut self, it: &str, adaptor: &str, k: usize, forget: bool, f: &mut dyn FnMut(&mut dyn Proto)) {
-        let mut b: Box<dyn Proto + '_> = match it {
-            "iter" => adapt_dx(self.iter(), adaptor, k),
-            "iter_ref" => adapt_dx((&*self).into_iter(), adaptor, k),
-            "drain" => adapt_dx(self.drain(), adaptor, k),
-            "iter_mut" => adapt_dx(self.iter_mut(), adaptor, k),
-            "iter_mut_ref" => adapt_dx((&mut *self).into_iter(), adaptor, k),
+        // "plain:<adaptor>": the stepping replica of the same iterator (see Plain)
+        let (plain, adaptor) = match adaptor.strip_prefix("plain:") {
+            Some(a) => (true, a),
+            None => (false, adaptor),
+        };
+        let mut b: Box<dyn Proto + '_> = match (it, plain) {
+            ("iter", false) => adapt_dx(self.iter(), adaptor, k),
+            ("iter", true) => adapt_dx(Plain(self.iter()), adaptor, k),
+            ("iter_ref", false) => adapt_dx((&*self).into_iter(), adaptor, k),
+            ("iter_ref", true) => adapt_dx(Plain((&*self).into_iter()), adaptor, k),
+            ("drain", false) => adapt_dx(self.drain(), adaptor, k),
+            ("drain", true) => adapt_dx(Plain(self.drain()), adaptor, k),
+            ("iter_mut", false) => adapt_dx(self.iter_mut(), adaptor, k),
+            ("iter_mut", true) => adapt_dx(Plain(self.iter_mut()), adaptor, k),
+            ("iter_mut_ref", false) => adapt_dx((&mut *self).into_iter(), adaptor, k),
+            ("iter_mut_ref", true) => adapt_dx(Plain((&mut *self).into_iter()), adaptor, k),
             _ => panic!("harness: unknown iterator {}", it),
         };
         f(&mut *b);
@@ -769,9 +949,15 @@ impl<H: BuildHasher + Default + Clone> QApi for DoublePriorityQueue<Item, Pri, H
         }
     }
     fn with_into_iter(self, it: &str, adaptor: &str, k: usize, f: &mut dyn FnMut(&mut dyn Proto)) {
-        match it {
-            "into_iter" => f(&mut *adapt_dx(self.into_iter(), adaptor, k)),
-            "sorted" => f(&mut *adapt_dx(self.into_sorted_iter(), adaptor, k)),
+        let (plain, adaptor) = match adaptor.strip_prefix("plain:") {
+            Some(a) => (true, a),
+            None => (false, adaptor),
+        };
+        match (it, plain) {
+            ("into_iter", false) => f(&mut *adapt_dx(self.into_iter(), adaptor, k)),
+            ("into_iter", true) => f(&mut *adapt_dx(Plain(self.into_iter()), adaptor, k)),
+            ("sorted", false) => f(&mut *adapt_dx(self.into_sorted_iter(), adaptor, k)),
+            ("sorted", true) => f(&mut *adapt_dx(Plain(self.into_sorted_iter()), adaptor, k)),
             _ => panic!("harness: unknown iterator {}", it),
         }
     }
